@@ -19,6 +19,9 @@ func c02Resume(out *emit.Out, in c02Input) {
 	offered := false
 	run := func(insecure bool, resume bool) puppet.TargetOutcome {
 		cc := tk.EPConfig{Suites: []uint16{in.Suite}, Ident: "cli", ServerName: "server.test", Insecure: insecure, Cache: "shared"}
+		if in.PtrCache {
+			cc.Cache = "ptr:shared"
+		}
 		if resume {
 			cc.TimeShiftYears = in.TimeShift
 			cc.Roots = in.Roots2
@@ -36,6 +39,9 @@ func c02Resume(out *emit.Out, in c02Input) {
 			if resume && p.PeerHello != nil && string(p.PeerHello.SID) == string(sid) && len(sid) > 0 {
 				offered = true
 				p.ForceMaster = master
+				if in.ZeroMaster {
+					p.ForceMaster = make([]byte, 48)
+				}
 				p.SendServerHello(puppet.SHOpt{Suite: in.Suite, SID: sid})
 				p.SendCCS()
 				p.SendFinished("ok")
@@ -85,5 +91,5 @@ func c02Resume(out *emit.Out, in c02Input) {
 	}
 	out.Add(emit.Case{Scenario: "resume-cross-config/" + in.Stack, Input: in, Direct: direct,
 		Observed: map[string]interface{}{"session_offered": offered, "accepted": acc, "resumed": second.Res.Resumed, "delivered": len(second.Read) > 0},
-		Coq:      fmt.Sprintf("ResumeCase false (mkRV %s %s true) %s %s %s %s", emit.Bool(sessOK), emit.Bool(offered), emit.Bool(offered), emit.Bool(acc), emit.Bool(second.Res.Resumed), emit.Bool(len(second.Read) > 0))})
+		Coq:      fmt.Sprintf("ResumeCase false (mkRV %s %s %s) %s %s %s %s", emit.Bool(sessOK), emit.Bool(offered), emit.Bool(!in.ZeroMaster), emit.Bool(offered), emit.Bool(acc), emit.Bool(second.Res.Resumed), emit.Bool(len(second.Read) > 0))})
 }
